@@ -609,7 +609,8 @@ class PyGen:
             p, _ = param(False, False)
             parts.append([tk('**')] + p)
             self.feat('kwarg')
-        ts = self.join(parts, trailing=(cs.bool(30) and bool(parts) and parts[-1][0].s not in ('*',)))
+        # (a trailing comma may follow every kind of last parameter, `*args` and `**kw` included - only a bare `*` cannot be last)
+        ts = self.join(parts, trailing=(cs.bool(40) and bool(parts) and not (parts[-1][0].s == '*' and len(parts[-1]) == 1)))
         if parts and parts[-1][0].s == '*' and len(parts[-1]) == 1:
             raise AssertionError('bare * last')
         return ts
@@ -1023,7 +1024,8 @@ class PyGen:
         if j == 1 and not self.excluded('C01-F23'):
             subj = self.sub('test') + [tk(',')]
         elif j == 2:
-            subj = self.join([self.sub('test') for _ in range(2)])
+            # two or more items (the grammar builds the list left-recursively from the third on), later ones possibly starred
+            subj = self.join([self.sub('test')] + [([tk('*')] + self.sub('bor')) if cs.bool(40) else self.sub('test') for _ in range(1 + cs.small(3))])
         elif j == 3:
             subj = self.named()
         else:
